@@ -56,7 +56,7 @@ func genC19(t *rapid.T) CaseC19 {
 	c.Stale = rapid.Bool().Draw(t, "stale")
 	c.Damage = rapid.SampledFrom([]string{"none", "none", "truncate", "truncate", "corrupt", "missing", "directory", "bad-document"}).Draw(t, "damage")
 	c.At = rapid.IntRange(0, 100000).Draw(t, "at")
-	c.Byte = rapid.SampledFrom([]byte{'<', '>', '{', '}', '"', '\\', ' ', 0, 0xff, 'x', '/', '&', '['}).Draw(t, "byte")
+	c.Byte = rapid.SampledFrom([]byte{'<', '>', '{', '}', '"', '\\', ' ', 0, 0xff, 'x', '/', '&', '[', 0, 1, 0x0b, 0x1f}).Draw(t, "byte")
 	g := VGen{Keys: xmlKeyNames, Nulls: false, StringGen: func(t *rapid.T, l string) string { return genJSONString(t) }}
 	c.GobMap = g.Map(t, 3)
 	return c
@@ -340,12 +340,41 @@ func checkC19(c CaseC19, info *Info) *Failure {
 			return nil
 		}
 		at = c.At % len(data)
+		// a control byte (other than tab, newline, carriage return) strictly inside a JSON document and outside its
+		// strings makes that document ill-formed whatever stands around it: the readers must report an error
+		mustErr := false
+		if c.Kind == "json" && c.Byte < 0x20 && c.Byte != '\t' && c.Byte != '\n' && c.Byte != '\r' {
+			// move to the next position of that kind (deterministically), so that most control-byte cases land on one
+			for k := 0; k < len(data) && !mustErr; k++ {
+				pos := (at + k) % len(data)
+				for _, sp := range spans {
+					if sp.start < pos && pos < sp.end-1 && data[pos] != '{' && data[pos] != '}' && !insideJSONString(data[sp.start:sp.end], pos-sp.start) {
+						mustErr = true
+						at = pos
+						break
+					}
+				}
+			}
+		}
 		data[at] = c.Byte
 		expectN = 0
 		for _, s := range spans {
 			if s.end <= at {
 				expectN++
 			}
+		}
+		if mustErr {
+			if werr := os.WriteFile(fn, data, 0o644); werr != nil {
+				return failf("harness-io", "%v", werr)
+			}
+			got, _, e1, e2 := read(fn)
+			if e1 != nil && strings.HasPrefix(e1.Error(), "raw variant") {
+				return failf("raw-variant-differs", "%v\nfile %q", e1, data)
+			}
+			if e1 == nil || e2 == nil {
+				return failf("read-back-error", "control byte %#x written over position %d inside a document (outside its strings): errors %v / %v, %d Maps read back\nfile %q", c.Byte, at, e1, e2, len(got), data)
+			}
+			info.Class("control byte inside a JSON document")
 		}
 		if werr := os.WriteFile(fn, data, 0o644); werr != nil {
 			return failf("harness-io", "%v", werr)
@@ -399,3 +428,22 @@ func checkC19(c CaseC19, info *Info) *Failure {
 }
 
 func TestC19(t *testing.T) { runProp(t, "C19", genC19, checkC19) }
+
+// insideJSONString: is byte offset i of the JSON text inside a string (quotes included)?
+func insideJSONString(doc []byte, i int) bool {
+	in, esc := false, false
+	for p, b := range doc {
+		if p == i {
+			return in || b == '"'
+		}
+		switch {
+		case esc:
+			esc = false
+		case in && b == '\\':
+			esc = true
+		case b == '"':
+			in = !in
+		}
+	}
+	return false
+}
